@@ -489,3 +489,21 @@ pub fn principal_provider(secrets: Vec<(String, String)>, kind: u8) -> Provider 
         None => Err(Box::new(SignatureError::InvalidClientTokenId("The security token included in the request is invalid".into()))),
     }))
 }
+
+/// "What the validator returns is an input of the next validation": validate `base`; if it is accepted, put the
+/// method, target, version and headers of `edited` into the Parts that came back (everything else the validator left in
+/// them — extensions — stays) and validate those with `edited`'s body. None = the base was not accepted or `edited`
+/// cannot be built.
+pub fn validate_resubmitted(base: &WireReq, edited: &WireReq, cfg: &Cfg, prov_base: &mut Provider, prov_edit: &mut Provider) -> Option<SutResult> {
+    let mut parts = match validate(base, cfg, prov_base) {
+        SutResult::Ok(ok) => ok.parts,
+        _ => return None,
+    };
+    let e = edited.to_http().ok()?;
+    let (eparts, ebody) = e.into_parts();
+    parts.method = eparts.method;
+    parts.uri = eparts.uri;
+    parts.version = eparts.version;
+    parts.headers = eparts.headers;
+    Some(validate_http(http::Request::from_parts(parts, ebody), cfg, prov_edit, 64))
+}
